@@ -1347,6 +1347,10 @@ func (a *Agent) addRemoteCandidate(cand Candidate) bool { //nolint:cyclop
 	if !a.shouldAcceptRemoteCandidate(cand) {
 		return false
 	}
+	// A failed agent has released its candidates; it takes new ones after a restart.
+	if a.connectionState == ConnectionStateFailed {
+		return false
+	}
 
 	set := a.remoteCandidates[cand.NetworkType()]
 
@@ -1429,6 +1433,12 @@ func (a *Agent) addCandidate(ctx context.Context, cand Candidate, candidateConn 
 		// The gathering cycle may have been canceled (Restart) while this task was queued:
 		// its candidates must not enter the new generation.
 		if ctxErr = ctx.Err(); ctxErr != nil {
+			return
+		}
+		// A failed agent has released its candidates; it takes new ones after a restart.
+		if a.connectionState == ConnectionStateFailed {
+			ctxErr = errAgentFailed
+
 			return
 		}
 
